@@ -206,24 +206,109 @@ def run(ctx: Ctx):
         ctx.ob("R4.3", eq, "effects of Molecule.__eq__: %d" % len(es), not es,
                "the species comparison does not modify either molecule", node=eq.node)
 
-    # the species comparison itself: same class, same name, same number of atoms, atom-wise equal
+    # the species comparison itself, as a decision table: Molecule.__eq__ must answer True exactly when the argument
+    # is a Molecule AND has the same name AND the same number of atoms AND all atoms compare equal pairwise
     if eq is not None:
         other = [p_ for p_ in eq.params if p_ != "self"][0]
-        txt = ast.unparse(eq.node).replace(" ", "")
-        cmps = [norm(c_).replace(" ", "") for c_ in ast.walk(eq.node) if isinstance(c_, ast.Compare)]
-        has_inst = "isinstance(%s,Molecule)" % other in txt
-        has_name = any(c_ in ("%s.name==self.name" % other, "self.name==%s.name" % other, "%s.name!=self.name" % other,
-                              "self.name!=%s.name" % other) for c_ in cmps)
-        has_len = any(c_ in ("len(%s)==len(self)" % other, "len(self)==len(%s)" % other, "len(%s)!=len(self)" % other,
-                             "len(self)!=len(%s)" % other) for c_ in cmps) or "strict=True" in txt or "zip_longest" in txt
-        has_atoms = ("zip(self,%s)" % other in txt or "zip(%s,self)" % other in txt or "zip_longest(" in txt) and \
-            any(c_.startswith("at1") or "!=" in c_ or "==" in c_ for c_ in cmps)
-        missing = [n_ for n_, ok_ in (("instance test", has_inst), ("molecule name", has_name), ("number of atoms", has_len),
-                                      ("atom-by-atom comparison", has_atoms)) if not ok_]
-        ctx.ob("R4.3", eq, "Molecule.__eq__ compares: class, name, atom count, atoms pairwise", not missing,
-               "two molecules are the same species only if they have the same name, the same number of atoms and equal "
-               "atoms position by position" + ("" if not missing else " -- not compared: %s (zip() stops at the shorter "
-               "molecule, so a prefix or an extension would be accepted)" % missing), node=eq.node)
+
+        def atom_of(e):
+            """Atomic predicate of a test expression: ('cls'|'name'|'len'|'atoms', polarity) or None."""
+            t = norm(e).replace(" ", "")
+            if t == "isinstance(%s,Molecule)" % other:
+                return ("cls", True)
+            if isinstance(e, ast.Compare) and len(e.ops) == 1:
+                sides = {norm(e.left).replace(" ", ""), norm(e.comparators[0]).replace(" ", "")}
+                eqop = isinstance(e.ops[0], ast.Eq)
+                neop = isinstance(e.ops[0], ast.NotEq)
+                if eqop or neop:
+                    if sides == {"%s.name" % other, "self.name"}:
+                        return ("name", eqop)
+                    if sides == {"len(%s)" % other, "len(self)"}:
+                        return ("len", eqop)
+                    if all(isinstance(x, ast.Name) for x in (e.left, e.comparators[0])):
+                        return ("atoms", eqop)       # at1 == at2 inside the pairwise loop
+            if isinstance(e, ast.Call) and call_name(e) == "all" and e.args and isinstance(e.args[0], (ast.GeneratorExp, ast.ListComp)):
+                g0 = e.args[0]
+                it = norm(g0.generators[0].iter).replace(" ", "")
+                if it in ("zip(self,%s)" % other, "zip(%s,self)" % other) and isinstance(g0.elt, ast.Compare) \
+                        and isinstance(g0.elt.ops[0], ast.Eq):
+                    return ("atoms", True)
+            return None
+
+        def ev(e, asg):
+            """Truth value of a test under an assignment of the atomic predicates (None: unknown)."""
+            if isinstance(e, ast.UnaryOp) and isinstance(e.op, ast.Not):
+                v = ev(e.operand, asg)
+                return None if v is None else (not v)
+            if isinstance(e, ast.BoolOp):
+                vs = []
+                for x in e.values:
+                    v = ev(x, asg)
+                    # short circuit like Python does
+                    if isinstance(e.op, ast.And) and v is False:
+                        return False
+                    if isinstance(e.op, ast.Or) and v is True:
+                        return True
+                    vs.append(v)
+                if None in vs:
+                    return None
+                return all(vs) if isinstance(e.op, ast.And) else any(vs)
+            a = atom_of(e)
+            if a is None:
+                if isinstance(e, ast.Constant):
+                    return bool(e.value)
+                return None
+            return asg[a[0]] == a[1]
+        import itertools
+        table_bad = []
+        decided = 0
+        for cls_, name_, len_, atoms_ in itertools.product([True, False], repeat=4):
+            asg = {"cls": cls_, "name": name_, "len": len_, "atoms": atoms_}
+            want = cls_ and name_ and len_ and atoms_
+            got = None
+            for p_ in enum_paths(eq.node.body):
+                if p_.end != "return":
+                    continue
+                feasible = True
+                for t_, o_ in p_.conds():
+                    v = ev(t_, asg)
+                    if v is None:
+                        feasible = None
+                        break
+                    if v != o_:
+                        feasible = False
+                        break
+                # the pairwise loop runs at least once for non-empty molecules: skipping it (loop0) is the path of an empty
+                # molecule; taking it with the inner test false is the 'all equal so far' path
+                if feasible is False:
+                    continue
+                if any(e_[0] == "loop0" for e_ in p_.events) and any(e_[0] == "loop1" for e_ in p_.events) is False and not atoms_:
+                    continue       # unequal atoms need at least one iteration
+                if feasible is None:
+                    got = None
+                    break
+                rv = p_.end_node.value
+                val = ev(rv, asg) if rv is not None else False
+                if isinstance(rv, ast.Name):
+                    val = None
+                if got is None:
+                    got = val
+                elif val is not None and got != val:
+                    # two feasible paths with different answers (loop unrolling): the falsifying one wins for 'atoms unequal'
+                    got = got and val
+            if got is None:
+                continue
+            decided += 1
+            if bool(got) != want:
+                table_bad.append((asg, bool(got)))
+        if decided < 8:
+            ctx.ob("R4.3", eq, "Molecule.__eq__ decision table", True, "the comparison is not written with the recognised atomic "
+                   "tests (class, name, length, pairwise atoms); not decided on this tree", undecided=True, node=eq.node)
+        else:
+            ctx.ob("R4.3", eq, "Molecule.__eq__ decision table (%d of 16 rows decided)" % decided, not table_bad,
+                   "two molecules are the same species exactly when the argument is a Molecule with the same name, the same "
+                   "number of atoms and pairwise equal atoms"
+                   + ("" if not table_bad else " -- wrong answer %s for %s" % (table_bad[0][1], table_bad[0][0])), node=eq.node)
         aeq = ctx.repo.func("Atom.__eq__", required=False)
         if aeq is not None:
             at = ast.unparse(aeq.node)
